@@ -324,6 +324,11 @@ ares_bool_t   ares_is_onion_domain(const char *name);
 /* Returns one of the normal ares status codes like ARES_SUCCESS */
 ares_status_t ares_send_query(ares_server_t *requested_server /* Optional */,
                               ares_query_t *query, const ares_timeval_t *now);
+/*! Remove a query from every list of the channel it is linked into (by qid, by
+ *  timeout, by connection, all queries).  Must be done before its callback is
+ *  invoked so that a re-entrant library call cannot reach it again. Idempotent.
+ */
+void          ares_detach_query(ares_query_t *query);
 ares_status_t ares_requeue_query(ares_query_t *query, const ares_timeval_t *now,
                                  ares_status_t            status,
                                  ares_bool_t              inc_try_count,
